@@ -253,6 +253,7 @@ def concrete_check(spec, vals, w=None):
     base = {"values": vals, "text": "layout %s (cwd: %s, path: %s)\n" % (layout, cwd_kind, style) + "\n".join("--- %s ---\n%s" % (k, v) for k, v in files.items())}
     toks = w["lang"].real_tokens_pos(files[main])
     T.PyAlg.overflow = False
+    T.PyAlg.fscale = 0.0
     try:
         cases = RI.run_all(lambda forks: RI.Interp(toks, T.PyAlg, lv.leaf, False, params=None, files=provider(files, w["lang"], main)))
     except Exception:  # noqa
